@@ -24,6 +24,30 @@ HDR_VALUES = {'str': lambda n: 'v', 'latin1': lambda n: 'caf\xe9', 'list': lambd
               'tuple': lambda n: tuple('v%d' % i for i in range(n))}
 
 
+class ListenerBoom(Exception):
+    """raised by the finalisation listeners of the harness"""
+
+
+def make_stream(chunks, lazy):
+    """ctx.out_string in the shapes user code and protocols produce"""
+    import itertools
+    if lazy == 'gen':
+        return (c for c in chunks)
+    if lazy == 'tuple':
+        return tuple(chunks)
+    if lazy == 'chain':
+        return itertools.chain(chunks[:1], chunks[1:])
+    if lazy == 'iter':
+        return iter(list(chunks))
+    if lazy == 'map':
+        return map(bytes, chunks)
+    return list(chunks)
+
+
+SIZED = ('list', 'tuple', None)
+ITERKIND = {'gen': 'generator', 'chain': 'iterator', 'iter': 'iterator', 'map': 'iterator'}
+
+
 def set_user_headers(ctx):
     for i, h in enumerate(USERHDR):
         ctx.transport.resp_headers['X-U%d' % i] = HDR_VALUES[h['k']](h.get('n', 0))
@@ -78,12 +102,15 @@ def impl_env():
             set_user_headers(ctx)
             return n
 
-        @rpc(Unicode, Unicode, _returns=Unicode)
-        def fail(ctx, kind, code):
+        @rpc(Unicode, Unicode, Unicode, Unicode, _returns=Unicode)
+        def fail(ctx, kind, code, sizes, lazy):
             TR.append(['user'])
             set_user_headers(ctx)
             if code:
                 ctx.transport.resp_code = code
+            if sizes:
+                # the user function supplies the outgoing stream itself, then fails
+                ctx.out_string = make_stream([b'y' * int(k) for k in sizes.split(',')], lazy)
             raise mkfault(kind)
 
         @rpc(Integer, Unicode, _returns=Iterable(Unicode))
@@ -104,12 +131,7 @@ def impl_env():
             chunks = [b'x' * int(k) for k in sizes.split(',') if k != ''] if sizes else []
             if code:
                 ctx.transport.resp_code = code
-            if lazy == 'gen':
-                ctx.out_string = (c for c in chunks)
-            elif lazy == 'tuple':
-                ctx.out_string = tuple(chunks)
-            else:
-                ctx.out_string = chunks
+            ctx.out_string = make_stream(chunks, lazy)
             # a length the transport has to correct or drop
             ctx.transport.resp_headers['Content-Length'] = '9999'
 
@@ -138,8 +160,8 @@ def impl_env():
             def val(ctx, n):
                 return aux_body()
 
-            @rpc(Unicode, Unicode, _returns=Integer)
-            def fail(ctx, kind, code):
+            @rpc(Unicode, Unicode, Unicode, Unicode, _returns=Integer)
+            def fail(ctx, kind, code, sizes, lazy):
                 return aux_body()
 
             @rpc(Integer, Unicode, _returns=Integer)
@@ -162,6 +184,9 @@ def impl_env():
             app = Application(svcs, 'tns', in_protocol=Soap11(validator='soft'), out_protocol=Soap11())
         elif proto == 'json':
             app = Application(svcs, 'tns', in_protocol=JsonDocument(validator='soft'), out_protocol=JsonDocument())
+        elif proto == 'jsonp':
+            from spyne.protocol.json import JsonP
+            app = Application(svcs, 'tns', in_protocol=JsonDocument(validator='soft'), out_protocol=JsonP('cb'))
         else:
             app = Application(svcs, 'tns', in_protocol=HttpRpc(validator='soft'), out_protocol=JsonDocument())
         w = WsgiApplication(app, chunked=chunked, max_content_length=mx, block_length=block)
@@ -172,7 +197,9 @@ def impl_env():
 
         def on_exc(ctx):
             SIDE['fault'] = fault_class(ctx.out_error.faultcode) if ctx.out_error is not None else None
-            SIDE['faultLen'] = sum(len(s) for s in ctx.out_string)
+            # (never consume a one-shot iterable here)
+            SIDE['faultLen'] = sum(len(s) for s in ctx.out_string) if isinstance(ctx.out_string, (list, tuple)) else None
+            SIDE['faultChunks'] = [len(s) for s in ctx.out_string] if isinstance(ctx.out_string, (list, tuple)) else None
         w.event_manager.add_listener('wsgi_exception', on_exc)
 
         def on_ret(ctx):
@@ -188,7 +215,7 @@ def impl_env():
             r = LISTEN.get('ret')
             if r is not None:
                 chunks = [b'z' * k for k in r['sizes']]
-                ctx.out_string = (c for c in chunks) if r['lazy'] == 'gen' else tuple(chunks) if r['lazy'] == 'tuple' else chunks
+                ctx.out_string = make_stream(chunks, r['lazy'])
                 SIDE['ret_listener_ran'] = True
         w.event_manager.add_listener('wsgi_return', rewrite_ret)
 
@@ -198,6 +225,16 @@ def impl_env():
                 ctx.out_string = [b'z' * k for k in r]
                 SIDE['exc_listener_ran'] = True
         w.event_manager.add_listener('wsgi_exception', rewrite_exc)
+
+        # finalisation listeners that raise the first time they are called (registered after the observers)
+        def boom(kind):
+            def listener(ctx):
+                if LISTEN.get('close') == kind and getattr(ctx, 'aux', None) is None and not SIDE.get('boomed'):
+                    SIDE['boomed'] = True
+                    raise ListenerBoom(kind)
+            return listener
+        app.event_manager.add_listener('method_context_closed', boom('ctx'))
+        w.event_manager.add_listener('wsgi_close', boom('wsgi'))
         if wsdl == 'unavailable':
             w.doc.wsdl11 = None
         elif wsdl == 'buildError':
@@ -321,6 +358,8 @@ def execute(case, validate=False):
         LISTEN['ret'] = case['on_return']
     if case.get('on_exception') is not None:
         LISTEN['exc'] = case['on_exception']
+    if case.get('close_listener'):
+        LISTEN['close'] = case['close_listener']
     SIDE['doc_len'] = len(doc)
     calls = []
 
@@ -340,6 +379,7 @@ def execute(case, validate=False):
                     TR.append(['hdr', int(k[3:]), isinstance(v, str)])
         except Exception:
             pass
+        SIDE['cl_header'] = cl
         TR.append(['sr', int(m.group(1)) if m else -1, '?', cl])
         return lambda data: None
 
@@ -361,6 +401,10 @@ def execute(case, validate=False):
                 c = next(src)
             except StopIteration:
                 break
+            except ListenerBoom:
+                # a finalisation listener failed at the end of the body: the server sees the exception ...
+                TR.append(['lraise'])
+                break
             TR.append(['chunk', len(c), isinstance(c, bytes)])
             body.append(c)
             n += 1
@@ -369,7 +413,10 @@ def execute(case, validate=False):
         #  Django / Pyramid wrappers do with b''.join(response))
         close = getattr(it, 'close', None)
         if close is not None and (validate or not (case.get('noclose') and abort is None)):
-            close()
+            try:
+                close()         # ... and still calls close(), as PEP 3333 requires
+            except ListenerBoom:
+                TR.append(['lraise'])
     except AssertionError as e:
         if not validate:
             raise
@@ -379,6 +426,7 @@ def execute(case, validate=False):
     except Exception as e:
         TR.append(['crash', crash_name(e)])
         SIDE['crash_detail'] = '%s: %s' % (type(e).__name__, str(e)[:200])
+    SIDE['user_ran'] = any(e[0] == 'user' for e in TR)
     # classify the fault the response carries: the error handler's own view, cross-checked with the body
     fault = SIDE.get('fault')
     for ev in TR:
@@ -434,7 +482,7 @@ def model_query(case, side, ref):
             req['intended'] = 'success'
             if m == 'raw':
                 req['chunks'] = [int(k) for k in a['sizes'].split(',') if k != ''] if a.get('sizes') else []
-                req['sized'] = a.get('lazy') != 'gen'
+                req['sized'] = a.get('lazy') in SIZED
                 req['preset'] = status_int(a.get('code'))
             else:
                 req['chunks'] = ref.get('chunks', [])
@@ -451,11 +499,24 @@ def model_query(case, side, ref):
                         req['gen'] = 'empty'
                     else:
                         req['gen'] = 'yields'
+    req['closeListener'] = case.get('close_listener') or 'none'
+    req['noclose'] = bool(case.get('noclose')) and case.get('abort') is None
+    req['faultIter'] = {'soap': 'list', 'jsonp': 'iterator'}.get(case['proto'], 'generator')
+    if req['faultLen'] is None:
+        req['faultLen'] = side.get('cl_header') or 0       # not measurable without consuming it
+    if side.get('faultChunks') is not None and len(side['faultChunks']) != 1:
+        req['faultBody'] = side['faultChunks']          # a fault document serialised in several chunks (JsonP)
+    if case['kind'] == 'rpc' and case['call']['m'] == 'fail' and case['call'].get('args', {}).get('sizes') and side.get('user_ran'):
+        # (the user-supplied stream is the fault body only when the user function ran; whether it ran is compared
+        #  separately through the `user` event)
+        a_ = case['call']['args']
+        req['faultBody'] = [int(k) for k in a_['sizes'].split(',')]
+        req['faultIter'] = ITERKIND.get(a_.get('lazy'), 'list')
     req['aux'] = case.get('aux') or 'none'
     req['auxOnErrors'] = bool(case.get('aux_on_errors'))
     req['userHeaders'] = [{'k': 'str' if h['k'] == 'latin1' else h['k'], 'n': h.get('n', 0)} for h in (case.get('headers') or [])]
     if case.get('on_return') is not None:
-        req['onReturn'] = {'chunks': case['on_return']['sizes'], 'sized': case['on_return']['lazy'] != 'gen'}
+        req['onReturn'] = {'chunks': case['on_return']['sizes'], 'sized': case['on_return']['lazy'] in SIZED}
     if case.get('on_exception') is not None:
         req['onException'] = case['on_exception']
     return {'op': 'handle', 'cfg': cfg, 'req': req, 'stream': case.get('plan') or [], 'abort': case.get('abort')}
@@ -694,6 +755,17 @@ def measure_facts():
     t = run(c)
     f['headerTuplesExpanded'] = all(e[2] for e in t if e[0] == 'hdr') and sum(1 for e in t if e[0] == 'hdr') == 2
     WITNESS['headerTuplesExpanded'] = c
+    # _ResponseBody.close: a finalizer that raises at the end of the body must not run again on close()
+    ws = [mkcase('json', 'echo', {'s': 'hi'}, close_listener=k) for k in ('ctx', 'wsgi')]
+    f['finalizeClearedFirst'] = all(sum(1 for e in run(c) if e[0] == 'closed') == 1 for c in ws)
+    WITNESS['finalizeClearedFirst'] = next((c for c in ws if sum(1 for e in run(c) if e[0] == 'closed') != 1), ws[0])
+    # handle_error materialises a one-shot out_string before it sums the lengths
+    c = mkcase('json', 'val', {'n': -3})
+    f['errMaterialisesGenerator'] = cl_matches(c)
+    WITNESS['errMaterialisesGenerator'] = c
+    c = mkcase('jsonp', 'val', {'n': -3})
+    f['errMaterialisesIterator'] = cl_matches(c)
+    WITNESS['errMaterialisesIterator'] = c
     tr = run(mkcase('json', 'gen', {'n': 2, 'mode': 'late'}))
     f['lateErrorKeepsOkStatus'] = next((e[1] for e in tr if e[0] == 'sr'), 0) == f['okStatus']
     return f
@@ -702,7 +774,8 @@ def measure_facts():
 GOOD = {'closeTiming': 'afterBody', 'wsdlCloseTiming': 'afterBody', 'joinKind': 'bytes', 'clParse': 'fault',
         'genGuard': True, 'soapEmptyBodyFault': True, 'wsdlErrBytes': True, 'wsdlErrClosed': True,
         'returnEventBeforeLength': True, 'errorEventBeforeLength': True, 'auxGuardOk': True, 'auxGuardError': True,
-        'headerTuplesExpanded': True}
+        'headerTuplesExpanded': True, 'finalizeClearedFirst': True, 'errMaterialisesGenerator': True,
+        'errMaterialisesIterator': True}
 SWITCH_WHAT = {
     'closeTiming': 'handle_rpc/handle_error close the context (method_context_closed, wsgi_close) while building the iterable, before the first body chunk',
     'wsdlCloseTiming': 'handle_wsdl_request closes the context before returning the document',
@@ -718,6 +791,12 @@ SWITCH_WHAT = {
                   'response cannot be serialised makes the callable raise after start_response; no body, context never closed',
     'auxGuardError': 'handle_error does not catch every exception of the auxiliary run after start_response',
     'headerTuplesExpanded': '_gen_http_headers passes a tuple-valued response header on as it is: a non-string header value reaches start_response',
+    'finalizeClearedFirst': '_ResponseBody.close clears the finalizer only after it returned: a method_context_closed / wsgi_close '
+                            'listener that raises at the end of the body makes the server\'s close() finalise a second time',
+    'errMaterialisesGenerator': 'handle_error sums the lengths of a generator out_string without turning it into a list first: '
+                                'Content-Length announces a body that was used up by the sum',
+    'errMaterialisesIterator': 'handle_error sums the lengths of a one-shot iterator out_string (itertools.chain of JsonP) without '
+                               'turning it into a list first: Content-Length announces a body that was used up by the sum',
     'errorEventBeforeLength': "handle_error fires 'wsgi_exception' after it computed Content-Length: a listener that rewrites the "
                               'fault document leaves a Content-Length that is not the number of body bytes',
 }
@@ -755,6 +834,9 @@ def facts13 : Facts13 where
   errorEventBeforeLength := %s
   auxGuardOk := %s
   auxGuardError := %s
+  finalizeClearedFirst := %s
+  errMaterialisesGenerator := %s
+  errMaterialisesIterator := %s
   headerTuplesExpanded := %s
   lateErrorKeepsOkStatus := %s
 
@@ -762,7 +844,8 @@ end SpyneModel.Generated
 ''' % (f['closeTiming'], f['wsdlCloseTiming'], f['joinKind'], f['clParse'], b(f['genGuard']), b(f['soapEmptyBodyFault']),
        f['soapBadLengthClass'], f['soapEmptyBodyClass'], b(f['wsdlErrBytes']), b(f['wsdlErrClosed']), tab(f['statusPlain']), tab(f['statusSoap']), f['preRejectStatus'],
        f['wsdlOkStatus'], f['wsdlUnavailableStatus'], f['wsdlErrorStatus'], f['okStatus'], b(f['returnEventBeforeLength']), b(f['errorEventBeforeLength']),
-       b(f['auxGuardOk']), b(f['auxGuardError']), b(f['headerTuplesExpanded']),
+       b(f['auxGuardOk']), b(f['auxGuardError']), b(f['finalizeClearedFirst']), b(f['errMaterialisesGenerator']),
+       b(f['errMaterialisesIterator']), b(f['headerTuplesExpanded']),
        b(f['lateErrorKeepsOkStatus']))
 
 
@@ -776,6 +859,9 @@ CALLS = [
     ('raw', {'sizes': '1,2,3', 'lazy': 'gen'}), ('raw', {'sizes': '1,2,3', 'lazy': 'list'}),
     ('raw', {'sizes': '5', 'lazy': 'tuple'}), ('raw', {'sizes': '', 'lazy': 'gen'}), ('raw', {'sizes': '', 'lazy': 'list'}),
     ('raw', {'sizes': '0,0,4', 'lazy': 'gen', 'code': '201 Created'}), ('raw', {'sizes': '2,2', 'lazy': 'list', 'code': '202 Accepted'}),
+    ('raw', {'sizes': '1,2,3', 'lazy': 'chain'}), ('raw', {'sizes': '4,1', 'lazy': 'iter'}), ('raw', {'sizes': '2,2,2', 'lazy': 'map'}),
+] + [('fail', {'kind': 'client', 'sizes': '4,3', 'lazy': lz}) for lz in ('list', 'tuple', 'gen', 'chain', 'iter', 'map')
+] + [('fail', {'kind': 'server', 'sizes': '6', 'lazy': 'chain', 'code': '503 Busy'})
 ] + [('fail', {'kind': k}) for k in FAULT_KINDS + ['crash']] + [('fail', {'kind': 'client', 'code': '418 Teapot'}),
                                                                  ('fail', {'kind': 'tooLong', 'code': '409 Conflict'})]
 
@@ -826,7 +912,7 @@ def gen_cases(ctx):
                     add({'kind': 'wsdl', 'wsdl': k, 'proto': proto, 'cfg': dict(BASE_CFG, chunked=chunked), 'abort': None,
                          'noclose': True}, 'wsdl')
     # -- every outcome class x protocol x chunked x abort point, generous limits
-    for proto in ('soap', 'json', 'http'):
+    for proto in ('soap', 'json', 'jsonp', 'http'):
         for chunked in (True, False):
             for m, a in CALLS:
                 if proto == 'http' and m == '#junk':
@@ -841,7 +927,7 @@ def gen_cases(ctx):
     RET = [{'sizes': [3], 'lazy': 'list'}, {'sizes': [2, 0, 5], 'lazy': 'gen'}, {'sizes': [], 'lazy': 'list'},
            {'sizes': [400], 'lazy': 'tuple'}, {'sizes': [1, 1], 'lazy': 'list'}]
     EXC = [[4, 3], [], [500], [0, 1]]
-    for proto in ('soap', 'json', 'http'):
+    for proto in ('soap', 'json', 'jsonp', 'http'):
         for chunked in (True, False):
             for m, a in CALLS:
                 if proto == 'http' and m == '#junk':
@@ -855,7 +941,7 @@ def gen_cases(ctx):
             [{'k': 'list', 'n': 0}, {'k': 'str'}, {'k': 'tuple', 'n': 3}], [{'k': 'tuple', 'n': 1}, {'k': 'list', 'n': 3}]]
     AUXK = ['ok', 'userFault', 'userCrash', 'serFail']
     i = 0
-    for proto in ('soap', 'json', 'http'):
+    for proto in ('soap', 'json', 'jsonp', 'http'):
         for m, a in CALLS:
             if proto == 'http' and m == '#junk':
                 continue
@@ -867,6 +953,24 @@ def gen_cases(ctx):
             for h in HDRS:
                 i += 1
                 add(mkcase(proto, m, a, cfg=dict(BASE_CFG, chunked=i % 2 == 0), abort=[None, 1][i % 2], headers=h), 'headers')
+    # -- finalisation listeners that raise (method_context_closed / wsgi_close) x every outcome x consumer behaviour:
+    #    exhaust + close(), exhaust without close(), stop after 0 / 1 / more chunks than there are
+    i = 0
+    for proto in ('soap', 'json', 'jsonp', 'http'):
+        for m, a in CALLS:
+            if proto == 'http' and m == '#junk':
+                continue
+            for kind in ('ctx', 'wsgi'):
+                for abort, noclose in ((None, False), (None, True), (0, False), (1, False), (9, False)):
+                    i += 1
+                    if i % 2 and abort in (0, 9):
+                        continue
+                    add(mkcase(proto, m, a, cfg=dict(BASE_CFG, chunked=i % 3 != 0), abort=abort, noclose=noclose,
+                               close_listener=kind), 'close-listener')
+    for k in ('ok', 'unavailable', 'buildError'):
+        for abort, noclose in ((None, False), (None, True), (0, False), (1, False), (2, False)):
+            add({'kind': 'wsdl', 'wsdl': k, 'proto': 'soap', 'cfg': dict(BASE_CFG), 'abort': abort, 'noclose': noclose,
+                 'close_listener': 'ctx'}, 'close-listener')
     # -- Soap11 refusing verb / content type before reading
     for chunked in (True, False):
         add(dict(mkcase('soap', 'echo', {'s': 'hi'}, cfg=dict(BASE_CFG, chunked=chunked)), verb='GET'), 'prereject')
@@ -908,13 +1012,14 @@ def gen_cases(ctx):
     # -- seeded random
     n = 12000 if ctx.thorough else 2500
     for _ in range(n):
-        proto = rng.choice(['json', 'json', 'soap', 'http'])
+        proto = rng.choice(['json', 'json', 'soap', 'http', 'jsonp'])
         m, a = rng.choice(CALLS + [c for c in CALLS if c[0] == 'raw'])
         if proto == 'http' and m == '#junk':
             m = '#unknown'
         if m == 'raw' and rng.random() < 0.7:
             k = rng.randrange(0, 6)
-            a = {'sizes': ','.join(str(rng.choice([0, 1, 2, 7, 100])) for _ in range(k)), 'lazy': rng.choice(['gen', 'list', 'tuple']),
+            a = {'sizes': ','.join(str(rng.choice([0, 1, 2, 7, 100])) for _ in range(k)),
+                 'lazy': rng.choice(['gen', 'list', 'tuple', 'chain', 'iter', 'map']),
                  'code': rng.choice([None, None, '201 Created', '299 Odd'])}
         base = mkcase(proto, m, a)
         doc_len = len(request_doc(base))
@@ -934,7 +1039,10 @@ def gen_cases(ctx):
             c['noclose'] = True
         if rng.random() < 0.25:
             k = rng.randrange(0, 4)
-            c['on_return'] = {'sizes': [rng.choice([0, 1, 5, 300]) for _ in range(k)], 'lazy': rng.choice(['list', 'gen', 'tuple'])}
+            c['on_return'] = {'sizes': [rng.choice([0, 1, 5, 300]) for _ in range(k)],
+                              'lazy': rng.choice(['list', 'gen', 'tuple', 'chain', 'iter', 'map'])}
+        if rng.random() < 0.2:
+            c['close_listener'] = rng.choice(['ctx', 'wsgi'])
         if rng.random() < 0.25:
             c['aux'] = rng.choice(AUXK)
             c['aux_on_errors'] = rng.random() < 0.5
@@ -983,6 +1091,10 @@ def run(ctx):
         ctx.cov['traces_validated_against_impl'] += 1
         ctx.hit('tag:' + case['tag'])
         ctx.hit('proto:' + case['proto'])
+        if case.get('close_listener'):
+            ctx.hit('close-listener:%s' % case['close_listener'])
+        if any(e[0] == 'lraise' for e in tr):
+            ctx.hit('listener-exception-reached-server')
         if case.get('aux'):
             ctx.hit('aux:%s%s' % (case['aux'], '+process_exceptions' if case.get('aux_on_errors') else ''))
         for h in case.get('headers') or []:
